@@ -14,7 +14,9 @@ def _c11_case(c):
         return v
     nxt()                        # cfg bits
     preserve = nxt() == "1"
-    nxt(); nxt()                 # wd, cwd (fixed by the harness)
+    wdx = unhex(nxt())
+    physx = unhex(nxt())
+    nxt()                        # cwd (fixed by the harness)
     prep = []
     for _ in range(int(nxt())):
         k = nxt()
@@ -32,7 +34,14 @@ def _c11_case(c):
         if k == "B":
             title = unhex(nxt())
             pushes.append({"kind": "B", "title": title, "tag": int(nxt())})
+        elif k == "M":
+            ls = []
+            for _ in range(int(nxt())):
+                lt = unhex(nxt())
+                ls.append({"title": lt, "tag": int(nxt())})
+            pushes.append({"kind": "M", "layers": ls})
         else:
+            how = int(nxt()) if k == "F" else 0
             title = unhex(nxt())
             es = []
             for _ in range(int(nxt())):
@@ -53,7 +62,22 @@ def _c11_case(c):
                 if tm:
                     es[-1]["time"] = tm
             pushes.append({"kind": "U", "title": title, "entries": es})
-    return {"prep": prep, "pushes": pushes, "preserve": preserve}
+            if how:
+                pushes[-1]["fail"] = how
+    wdv = ""
+    if wdx.endswith("/via/wd"):
+        wdv = "via"
+        prep = [p for p in prep if not p["path"].endswith("/via")]
+    elif physx.endswith("/wdreal"):
+        wdv = "link"
+        prep = [dict(p, path=p["path"].replace("/wdreal", "/wd", 1)) for p in prep
+                if not (p["kind"] == "l" and p["path"].endswith("/s3/wd"))]
+    elif not any(p["path"] == physx for p in prep):
+        wdv = "missing"
+    rep = {"prep": prep, "pushes": pushes, "preserve": preserve}
+    if wdv:
+        rep["wd"] = wdv
+    return rep
 
 
 # ---------- in-Coq re-evaluation of a sample (cross-checks extraction + OCaml driver) ----------
@@ -88,6 +112,7 @@ def _c11_vm_goal(case, out):
     g = "(mkCfg %s)" % " ".join("true" if c == "1" else "false" for c in bits)
     pres = "true" if nxt() == "1" else "false"
     wd = _vm_path(unhex(nxt()))
+    physwd = _vm_path(unhex(nxt()))
     cwd = _vm_path(unhex(nxt()))
     ents, cont, ino, files = [], [], 0, {}
     for _ in range(int(nxt())):
@@ -115,7 +140,14 @@ def _c11_vm_goal(case, out):
         if k == "B":
             title = _vm_hexstr(nxt())
             ops.append("PBlob %s %d%%N" % (title, int(nxt())))
+        elif k == "M":
+            ls = []
+            for _ in range(int(nxt())):
+                lt = _vm_hexstr(nxt())
+                ls.append("(%s, %d%%N)" % (lt, int(nxt())))
+            ops.append("PManifest %s" % _vm_list(ls, "(str * N)"))
         else:
+            how = int(nxt()) if k == "F" else 0
             title = _vm_hexstr(nxt())
             es, tms = [], []
             for _ in range(int(nxt())):
@@ -133,9 +165,13 @@ def _c11_vm_goal(case, out):
                 else:
                     es.append("EOther %s" % _vm_hexstr(nxt()))
                 tms.append("%d%%N" % int(nxt()))
-            ops.append("PDir %s %s %s" % (title, _vm_list(tms, "N"), _vm_list(es, "entry")))
+            if how:
+                ops.append("PDirF %d%%N %s %s %s" % (how, title, _vm_list(tms, "N"), _vm_list(es, "entry")))
+            else:
+                ops.append("PDir %s %s %s" % (title, _vm_list(tms, "N"), _vm_list(es, "entry")))
     verdicts, _, listing = out.partition("|")
-    oks = _vm_list(["true" if c == "O" else "false" for c in verdicts], "bool")
+    listing = listing.partition("|X")[0]
+    oks = _vm_list(["true" if c == "O" else "false" for c in verdicts[0::9]], "bool")
     paths, views = [], []
     for item in (listing.split(",") if listing else []):
         hp, _, v = item.partition(":")
@@ -148,8 +184,8 @@ def _c11_vm_goal(case, out):
             views.append("VFile %d%%N %d%%N" % (int(tg) * 1024 + int(m), int(st or 0)))
         else:
             views.append("VSym %s" % _vm_hexstr(v[1:]))
-    return ("let r := pushes %s %s %s %s (mkStore %s []) %s in\n  (snd r, map (vw %s (st_fs (fst r))) %s, length (ents (st_fs (fst r))))\n  = (%s, %s, %d)"
-            % (g, pres, wd, cwd, fs, _vm_list(ops, "pushop"), wd, _vm_list(paths, "path"), oks, _vm_list(views, "view"), len(paths)))
+    return ("let r := pushes %s %s %s %s (mkStore %s [] []) %s in\n  (snd r, map (vw %s (st_fs (fst r))) %s, length (ents (st_fs (fst r))))\n  = (%s, %s, %d)"
+            % (g, pres, wd, cwd, fs, _vm_list(ops, "pushop"), physwd, _vm_list(paths, "path"), oks, _vm_list(views, "view"), len(paths)))
 
 
 def _c11_vm_sample(d, tier, coq, build):
@@ -195,8 +231,8 @@ def _c11_vm_sample(d, tier, coq, build):
 
 CONFIG = {
     "properties_file": "Properties/C11.v",
-    "proof_files": ["Base/Prelude.v", "Proofs/FileConfine.v"],
-    "model_files": ["Model/FileConfine.v"],
+    "proof_files": ["Base/Prelude.v", "Proofs/FileConfine.v", "Proofs/FileConfineSrc.v"],
+    "model_files": ["Generated/GC11.v", "Model/FileConfine.v"],
     "extract": "XC11.v",
     "ml_main": "c11_main.ml",
     "harness": "c11",
@@ -207,18 +243,18 @@ CONFIG = {
     "timeout_search": 900,
     "assumptions": [
         "kernel semantics are modelled, not verified: path resolution (component walk, '..' = physical parent, symbolic links followed up to 40 times, final link not followed by lstat/link/symlink/unlink, O_CREAT through a dangling link), link(2) not following a final symbolic link, hard links = shared inode; the model is tied to the real kernel + Go runtime only by the correspondence run",
-        "Lstat checks of the store (resolveRelToBase's parent loop, ensureDirNoSymlink, removeSymlink, the Lstat before Chtimes) are modelled as look-ups at the lexical location; the mutating system calls (mkdir, open, link, symlink, unlink, chmod, utimes) as kernel walks; their agreement is proved where used (walk_lex / walk_real) and exercised by the correspondence run",
-        "path/filepath (Clean, Join, Rel, Dir, IsAbs, Abs) hand-modelled on component lists (lc / rel_under), Unix separators only (no Windows volume/backslash semantics); archive/tar and compress/gzip are abstracted to an entry list (PAX headers, short names; no USTAR prefix split, GNU long names, sparse or global headers); os.CreateTemp (temp files in TMPDIR are outside the statement) not modelled; path components > 255 bytes (ENAMETOOLONG) and chains of more than 40 links / 3000 walk steps are rejected by the code resp. the model as errors and not compared",
-        "times: the model records the time last set explicitly with utimes (os.Chtimes) per file inode / directory and the view contains it; implicit updates of times by writes are not modelled, so the correspondence compares times only for objects outside the working directory (where nothing may change); the snapshot oracle compares the real modification time of every outside object",
-        "permission bits are modelled (umask 022, Mkdir/OpenFile creation modes, directories created with mode|0700 and their recorded modes applied after the last entry of a successful extraction (restoreDirModes: exact with PreservePermissions, else narrowing), os.Chmod of regular files under PreservePermissions) for modes <= 0777; ownership and setuid/setgid/sticky bits are not modelled or generated",
-        "Inv hypothesis (C11_confined_partial): the working directory exists and it and its ancestors are real directories; files below it share no inode with the outside. Nothing is assumed about symbolic links below the working directory. Excluded and covered otherwise: (a) working directory missing - modelled (MkdirAll(base)) and compared, its creation and the parent's modification time are the store's own; (b) working directory being / opened through a symbolic link - oracle only, judged at the physical location (model prints UNJUDGED); (c) pre-populated hard links to outside files - known finding shared-inode-*, C11_shared_inode_refuted",
-        "the working directory's own mode and times are the store's (inside wd wd = true; title '.' with a directory entry '.' chmods it; the snapshot ignores its mode and times) - its entry in the parent (existence, type, identity) is not: C11_working_directory_kept",
-        "pushes of manifests (restoreDuplicates re-pushes the named layers whose content the store holds) are driven by the harness and judged by the oracle only (model prints UNJUDGED); content that fails verification is modelled for named blobs (file written, then removed); truncated gzip / malformed tar are not generated (an archive that fails after k entries behaves like an entry that fails)",
-        "unnamed blobs go to the fallback storage (no file-system effect; the same content twice is refused - modelled for blobs only)",
-        "the harness runs as root inside chroot(-dir) with umask 022; titles/entry names/targets are generated from a fixed grammar; no concurrency (check-then-act between Lstat and the system call is not in scope); a run directory without POSIX modes, hard links or symbolic links is not supported",
+        "every system call of the store, Lstat included (klstat), is a kernel walk in the model; under the theorem's hypotheses an Lstat sees exactly the tree's entry at the lexical location (C11_lstat_is_lookup); a working directory that is, or is opened through, a symbolic link is outside the theorems but judged by model + correspondence + oracle (physical location)",
+        "path/filepath (Clean, Join, Rel, Dir, IsAbs, Abs) hand-modelled on component lists (lc / rel_under), Unix separators only; archive/tar and compress/gzip are abstracted to an entry list with header times plus three failure modes (gzip verification, broken tar stream, tar digest mismatch: PDirF); PAX headers, names up to 120 bytes per element, directory names with trailing slash are generated, USTAR prefix split / GNU long names / sparse / global headers are not; os.CreateTemp (temp files in TMPDIR are outside the statement) not modelled; ENAMETOOLONG and chains of more than 40 links / 3000 walk steps are errors and not compared",
+        "times: the model records the time last set explicitly with utimes (os.Chtimes) per file inode / directory and the view contains it; implicit updates of times by writes are not modelled, so the correspondence compares times only for objects outside the working directory; the snapshot oracle compares the real modification time of every outside object",
+        "permission bits are modelled (umask 022; the creation modes 0777 / mode|0700 are re-read from the source by the translator; recorded directory modes applied after the last entry of a successful extraction, exact with PreservePermissions, else narrowing; os.Chmod of regular files under PreservePermissions) for modes <= 0777; ownership and setuid/setgid/sticky bits are not modelled or generated",
+        "content store: unnamed blobs and manifests sit in the fallback storage (modelled as names no title can have); digestToPath (content tag -> file it was last saved to) and Store.Fetch through it (os.Open of that file as it is now, following links: a read, not a mutation) are modelled; content verification is a flag (a tag that differs, or tag 0, fails: the file is written and removed again); content tags of one length only are generated (a shorter/longer stale file would be cut by the size limit before the mismatch)",
+        "Inv hypothesis (C11_confined_partial): the working directory exists and it and its ancestors are real directories; files below it share no inode with the outside. Nothing is assumed about symbolic links below the working directory. C11_confined_missing_wd replaces 'exists' by 'exists, or is missing with real ancestors and nothing below, or a regular file sits in its place' (a named blob titled like the missing working directory creates that file) for all histories. Pre-populated hard links to outside files: known finding shared-inode-*, C11_shared_inode_refuted",
+        "the working directory's own mode and times are the store's (inside wd wd = true; the snapshot ignores its mode and times, and the parent's modification time when the store creates the working directory) - its entry in the parent (existence, type, identity) is not: C11_working_directory_kept",
+        "the write paths consult no remembered state: the translator lists every receiver field / method / package variable that ensureWriteDir, ensureDirNoSymlink, pushFile, pushDir, resolveWritePath, absPath, removeSymlink, writeFile, resolveRelToBase, ensureLinkPath, restoreDirModes, extractTarDirectory, extractTarGzip mention (kind c11_state_reads) and Proofs/FileConfineSrc.v pins the lists; Store.push's name status (duplicate names) is modelled as st_names",
+        "the harness runs as root inside chroot(-dir) with umask 022; titles/entry names/targets are generated from a fixed grammar plus attack / revisit-history templates; no concurrency (check-then-act between Lstat and the system call is not in scope); every push has a 30 s watchdog; a run directory without POSIX modes, hard links or symbolic links is not supported",
     ],
-    "level_text": "Coq theorems over all trees satisfying the invariant (any symbolic links allowed), all titles, all entry sequences (regular, directory, symlink, hard link, other) with any header times, all link targets, PreservePermissions on/off and any process cwd: every sequence of pushes of the repaired store leaves the view (existence, type, content, permission bits, time last set, link text) of every location outside the working directory unchanged and preserves the invariant; the working directory itself stays a real directory; titles, entry names (w.r.t. the working and the unpack directory), link targets and names with a link among their parents that resolve outside are rejected with an error; links are created with the raw archive target and never followed below the working directory; machine-checked counter-examples show the pre-repair code (each repair removed individually) escaping and the hypothesis on shared inodes being necessary. Model tied to the code by a differential run of the extracted model against Store.Push on a real file system inside a chroot (plus an in-Coq vm_compute re-evaluation sample), plus an independent before/after snapshot oracle",
-    "level_note": "partial: (1) a working directory pre-populated with hard links to outside files is overwritten in place (known finding shared-inode-*, not repaired; theorem hypothesis inv_ino); (2) working directory being / reached through a symbolic link and manifest pushes (restoreDuplicates) are covered by the oracle only, a missing working directory by model + correspondence but not by the theorem; (3) kernel path resolution and path/filepath are modelled (tied by the correspondence run), not verified; implicit time updates, ownership, special mode bits, tar/gzip framing and Lstat-then-act races are not modelled; seven fix: commits on the repo branch",
+    "level_text": "Coq theorems over all trees satisfying the invariant (any symbolic links allowed), all histories of pushes on one store - named blobs (also failing verification), archives (regular, directory, symlink, hard link, other entries; any header times; also failing after gzip / in the tar stream / on the tar digest), unnamed content and manifests whose named layers are restored from the store - with all titles, names, link targets, PreservePermissions on/off and any process cwd: the view (existence, type, content, permission bits, time last set, link text) of every location outside the working directory is unchanged and the invariant preserved, also when the working directory does not exist yet; the working directory itself stays a real directory; the process cwd is irrelevant; titles, entry names (w.r.t. the working and the unpack directory), link targets, manifest layer titles and names with a link among their parents that resolve outside are rejected with an error; machine-checked counter-examples show the pre-repair code (each repair removed individually) escaping and the hypothesis on shared inodes being necessary. Model tied to the code by translator-pinned source facts (no remembered state in the write paths, creation modes), a differential run of the extracted model against Store.Push on a real file system inside a chroot with the whole tree compared after every push (plus an in-Coq vm_compute re-evaluation sample), and an independent before/after snapshot oracle",
+    "level_note": "partial: (1) a working directory pre-populated with hard links to outside files is overwritten in place (known finding shared-inode-*, not repaired; theorem hypothesis inv_ino); (2) a working directory that is / is reached through a symbolic link is covered by model + correspondence + oracle, not by a theorem; (3) kernel path resolution and path/filepath are modelled (tied by the correspondence run), not verified; implicit time updates, ownership, special mode bits, tar/gzip framing beyond the three failure modes and Lstat-then-act races are not modelled; seven fix: commits on /repo main from earlier rounds, none in this round",
     "technique": "machine-checked proof in Coq (invariant over kernel path resolution with symbolic and hard links; lexical = physical lemma; frame theorem for every system call of the store) + model/implementation correspondence on a real file system + snapshot oracle",
     "explanation": "frame theorem (nothing outside the working directory changes) and invariant preservation for all push sequences of the repaired file store, proved in Coq; extracted model diffed against Store.Push (verdicts + full tree listing) on generated cases in a chroot sandbox; oracle = snapshot of everything outside the working directory before/after each Push + lexical outside-name rejection",
 }
